@@ -5,6 +5,10 @@ HERE = os.path.dirname(os.path.dirname(os.path.abspath(__file__)))
 ALL = [f'C{i:02d}' for i in range(1, 21)]
 
 CHECKS = {
+ 'C19': dict(level='exploration', design='3/C19',
+   technique='configuration enumeration with runtime monitors: URL scanner over every message on the loop-back wire, recorder of the TLS context of every connection object, sys.addaudithook(socket.connect) + SSLContext.wrap_socket recorder on real localhost sockets, in-memory TLS handshake matrix',
+   text='All 24 combinations of provider TLS {off,on} x consumer {none, optional, enforced} x {sync, async} provider components x alternative host name are run through a scripted session (metadata, GetMdib, subscriptions, 5 transactions with notifications, an operation invocation, Renew, GetStatus, Unsubscribe, shutdown with SubscriptionEnd) over the loop-back transport, which emulates a TLS/plaintext mismatch the way a socket would (SSLError / reset). Every URL in every message that points to an endpoint of the run must be https when that side is configured with TLS (enforced for the consumer); every connection object created towards a TLS side must carry the configured client context; an enforced consumer must fail against a plaintext provider instead of falling back. One run uses real localhost sockets with a generated PKI: an audit hook records each socket.connect and a recorder around SSLContext.wrap_socket attributes the context - every TCP connection to a provider / consumer port must have been wrapped by the expected client context. Contexts from mk_ssl_contexts(ca_file) must have verify_mode CERT_REQUIRED on both sides and an in-memory handshake matrix {trusted, untrusted, no certificate} x direction must accept only the trusted peer.',
+   note='Loop-back runs do not perform real handshakes; the real-socket run uses the synchronous provider components (asyncio TLS wraps memory BIOs and cannot be attributed to a socket from the outside). Test PKI is committed under fixtures/pki.'),
  'C04': dict(level='exploration', design='3/C04',
    technique='runtime monitors on the wire log of the loop-back transport: report-vs-commit-diff oracle (provider version history), independent XSD validation of every message, per-subscriber order monitor under writer threads and writer-observed lock-granularity exploration, periodic-store walker',
    text='For every committed transaction of seeded histories (sync and async subscription managers, single- and multi-MDS MDIBs, two subscribers with different filters) the notifications found on the wire are parsed with lxml, their entities read back and canonicalised, and compared with diff(by_version[v-1], by_version[v]) of the provider history: version group of the commit, exactly the created / updated / deleted descriptors and changed states (union over the reports of the transaction, no entity twice with different content), content equal to the MDIB content at that version, each state under the part of its source MDS, no report kind the subscriber did not subscribe. Every distinct message that crossed the transport (requests, responses, notifications, faults, SubscriptionEnd at shutdown) is validated by an XMLSchema compiled from the bundled xsd files with an own resolver. Order: writer threads (2-6) and a lock-granularity exploration with the writer observed ({7 kinds}^2 x points x k foreign transactions) - per subscriber the MdibVersions of delivered reports must be non-decreasing. The periodic-report store is walked after every commit and flushed periodically: every retained / sent state must equal the content published for the version it is labelled with.',
